@@ -50,7 +50,8 @@ def storage_routing(ctx):
         if key in seen:
             continue
         seen.add(key)
-        ctx.report({"kind": "storagerouting-" + law, "model": "StorageRouting", "variant": variant},
+        ctx.report({"kind": "storagerouting-" + law, "model": "StorageRouting", "variant": variant,
+                    "zeroflow": bool(ev.get("zeroflow")), "residclass": ev.get("residclass"), "atdead": bool(ev.get("atdead"))},
                    "StorageRouting violates the %s law at timestep %s (params bias,k,m,area,dead,dt = %s): ranks %s"
                    % (law, ev.get("t"), raw, {kk: ev[kk] for kk in ("resid", "tolb", "out", "sto", "rel", "tolr")}), {"event": ev, "case": c})
     # binding self-test: a perturbed residual must be reported
